@@ -18,7 +18,7 @@ from .. import framework as fw
 from .. import tlc
 
 MC_CFG = 'SPECIFICATION Spec\nCONSTANTS\n ND = 2\n NP = 2\n NR = 3\nINVARIANT Inv_Rng\nPROPERTY Prop_Reproducible\nCHECK_DEADLOCK FALSE\n'
-ND, NP = 5, 3
+ND, NP = 5, 5
 
 
 def make_session(rng, name, length):
@@ -26,7 +26,7 @@ def make_session(rng, name, length):
     for _ in range(length):
         r = rng.random()
         if r < 0.5:
-            acts.append({'act': 'run', 'd': rng.randrange(ND if rng.random() < 0.8 else 4), 'p': rng.randrange(NP)})
+            acts.append({'act': 'run', 'd': rng.randrange(ND), 'p': rng.randrange(NP)})
         elif r < 0.6:
             acts.append({'act': 'seed', 'v': rng.randrange(100000)})
         elif r < 0.72:
@@ -71,12 +71,15 @@ def run(out, tier, seed):
     rng = random.Random(seed + 9)
     nsess, length = (48, 36) if tier == 'quick' else (480, 60)
     # the reference process: every (data, parameters) once, nothing else
-    ref_sess = {'name': 'reference', 'actions': [{'act': 'run', 'd': d, 'p': p} for d in range(ND) for p in range(NP)] + [{'act': 'demo'}]}
-    sessions = [ref_sess] + [make_session(rng, f'session:{i}', length) for i in range(nsess)]
+    # reference processes: one per parameter set, every data set once, nothing else before
+    ref_sess = [{'name': f'reference:{p}', 'actions': [{'act': 'run', 'd': d, 'p': p} for d in range(ND)] + [{'act': 'demo'}]} for p in range(NP)]
+    sessions = ref_sess + [make_session(rng, f'session:{i}', length) for i in range(nsess)]
     recs = run_sessions(sessions, ['0', '1', 'random', '12345'])
     ref = [[0] * NP for _ in range(10)]
-    for e in recs[0]['events']:
-        ref[e['d']][e['p']] = e['res']
+    for r in recs[:NP]:
+        for e in r['events']:
+            if e['act'] == 'run' or r['name'] == 'reference:0':
+                ref[e['d']][e['p']] = e['res']
     for i, r in enumerate(recs):
         r['tid'] = i + 1
         r['ref'] = ref
@@ -104,16 +107,18 @@ def run(out, tier, seed):
 
 def replay(path):
     rp = json.load(open(path))['payload']
-    ref_sess = {'name': 'reference', 'actions': [{'act': 'run', 'd': d, 'p': p} for d in range(ND) for p in range(NP)] + [{'act': 'demo'}]}
-    recs = run_sessions([ref_sess, rp['session']], ['0', rp.get('hashseed', '1')])
+    ref_sess = [{'name': f'reference:{p}', 'actions': [{'act': 'run', 'd': d, 'p': p} for d in range(ND)] + [{'act': 'demo'}]} for p in range(NP)]
+    recs = run_sessions(ref_sess + [rp['session']], ['0'] * NP + [rp.get('hashseed', '1')])
     ref = [[0] * NP for _ in range(10)]
-    for e in recs[0]['events']:
-        ref[e['d']][e['p']] = e['res']
+    for r in recs[:NP]:
+        for e in r['events']:
+            if e['act'] == 'run' or r['name'] == 'reference:0':
+                ref[e['d']][e['p']] = e['res']
     for i, r in enumerate(recs):
         r['tid'] = i + 1
         r['ref'] = ref
     verdicts, _ = tlc.validate_traces(recs, module='TraceSession', shards=1)
-    bad = [c for _, f, _ in verdicts[2] for c in f if c.startswith('C09_')]
+    bad = [c for _, f, _ in verdicts[NP + 1] for c in f if c.startswith('C09_')]
     print('failing clauses', bad)
     if bad:
         print(f'VIOLATION property=C09 replay={path}')
